@@ -324,11 +324,20 @@ func c09Families(tier string) []explore.Family {
 		{"n", func() any { return nil }, false}, {"f", func() any { return false }, false}, {"t", func() any { return true }, true},
 		{"z", func() any { return 0 }, true}, {"e", func() any { return "" }, true}, {"l", func() any { return []any{} }, true},
 		{"m", func() any { return map[string]any{} }, true}, {"x", func() any { return "x" }, true},
+		// operands that are not plain variables: Drops (and a pointer) reached through a property, an index or a filter
+		{"h.df", nil, false}, {"h.dn", nil, false}, {"h.dt", nil, true}, {"dl[0]", nil, false}, {"dl.last", nil, true}, {"h.pf", nil, false},
 	}
 	T := len(tv)
 	bind := func() map[string]any {
-		b := map[string]any{}
+		f := false
+		b := map[string]any{
+			"h":  map[string]any{"df": univ.Drop{V: false}, "dn": &univ.PDrop{V: nil}, "dt": univ.Drop{V: true}, "pf": &f},
+			"dl": []any{univ.Drop{V: false}, univ.Drop{V: 0}},
+		}
 		for _, t := range tv {
+			if t.v == nil {
+				continue
+			}
 			b[t.name] = t.v()
 		}
 		return b
